@@ -1,5 +1,6 @@
 import GrinVerif.Model.SerIds
 import GrinVerif.Lemmas.SerStoreRt
+import GrinVerif.Lemmas.SerSortAny
 /-! # C10, fourth part — derived identifiers (`Model/SerIds.lean`)
 
 `kernel_sig_msg`, `pre_pow` / `from_pre_pow_and_proof`, `short_id`: hashes of hash-mode bytes that
@@ -131,5 +132,19 @@ theorem shortId_length (H : Bytes → Bytes) (item blk : Bytes) (nonce : Nat) :
 
 /-- SipHash-2-4 reference vector (key 00..0f, message 00..0e: a129ca6149be45e5) -/
 example : sipHash24 0x0706050403020100 0x0f0e0d0c0b0a0908 (List.range 15) = 0xa129ca6149be45e5 := by decide
+
+/-! ## the sorting algorithm does not matter
+
+`Inputs::write` at version ≥ 3, `TransactionBody::init`, `CompactBlockBody::init` call
+`sort_unstable()`; the model uses a stable insertion sort. The assumption "the two agree when no two
+different items share a hash" is a theorem: -/
+
+/-- Any algorithm that returns a permutation of `l` ordered by key returns exactly `sortByKey key l`
+when the keys in `l` are pairwise different — stable or not, whatever its strategy. -/
+theorem any_sort_is_the_model {α : Type} (key : α → Nat) (l s : List α)
+    (hperm : s.Perm l) (hsorted : s.Pairwise (fun a b => key a ≤ key b))
+    (hnd : (l.map key).Nodup) : s = sortByKey key l := sort_any_agrees key l s hperm hsorted hnd
+
+example : sortByKey (fun x : Nat => x % 10) [13, 21, 7] = [21, 13, 7] := by decide
 
 end GV.Props.C10Ids
